@@ -63,8 +63,10 @@ def check(an, rep, tier):
             ok = rv.k == 'arr' and rv.dims is not None and \
                 len(rv.dims) == want_nd and rv.dims[-1] is not None and \
                 rv.dims[-1].as_int() == r.d and rv.dt == 'i'
+            typed = rv.k == 'arr' and rv.dims is not None
             rep.add('S-ret', r.qualname, 'index of width d for %s' % r.tag(),
-                    'ok' if ok else 'violation', '' if ok else repr(rv))
+                    'ok' if ok else ('violation' if typed else 'unknown'),
+                    '' if ok else repr(rv))
     # --- O-pivot, on the typestates of the abstract run (no names, no
     # statement shapes): in each direction the orthogonalisation pivot is the
     # core the sweep starts from (0 for left-to-right, d-1 otherwise) and every
@@ -371,10 +373,20 @@ def check(an, rep, tier):
                 (prog.dotted(node.func) or '').endswith('ind_qtt_to_tt'):
             from .. import roles as _roles
             a1 = _roles.arg(prog, fq.module, node, 'q', 1)
-            qs.add(a1.id if isinstance(a1, ast.Name) else None)
+            if isinstance(a1, ast.Name):
+                qs.add(a1.id)
+            elif a1 is not None and any(
+                    isinstance(x_, ast.Name) and x_.id in qdef
+                    for x_ in ast.walk(a1)):
+                # computed FROM the checked exponent (q - 1, 2 * q): another
+                # value than the one that was checked
+                qs.add('<%s>' % ast.unparse(a1))
+            else:
+                qs.add(None)
     rep.add('P-domain', 'optima.optima_qtt', 'indices mapped back with the '
             'checked exponent', 'ok' if qs and qs <= qdef and len(qdef) == 1
-            else 'violation', '' if qs and qs <= qdef else
+            else ('unknown' if (not qdef or not qs or None in qs)
+                  else 'violation'), '' if qs and qs <= qdef else
             'ind_qtt_to_tt receives %s, the checked exponent is %s'
             % (sorted(map(str, qs)), sorted(qdef)))
     from .. import rules_proto as _RP
